@@ -350,6 +350,13 @@ func Eq(a, b *Term) *Term {
 			return Not(a)
 		}
 	}
+	// equality of a constructor with a conditional whose leaves are constructors: distribute
+	if isCtor(b) && a.op == "ite" && ctorLeaves(a, 0) {
+		return Ite(a.args[0], Eq(a.args[1], b), Eq(a.args[2], b))
+	}
+	if isCtor(a) && b.op == "ite" && ctorLeaves(b, 0) {
+		return Ite(b.args[0], Eq(a, b.args[1]), Eq(a, b.args[2]))
+	}
 	// constructor applications with same constructor: compare fieldwise
 	if a.op == b.op && strings.HasPrefix(a.op, "mk") && len(a.args) == len(b.args) && a.op != "" {
 		var cs []*Term
@@ -365,6 +372,18 @@ func Eq(a, b *Term) *Term {
 }
 
 func Neq(a, b *Term) *Term { return Not(Eq(a, b)) }
+
+func isCtor(t *Term) bool { return strings.HasPrefix(t.op, "mk") && t.op != "mk" }
+
+func ctorLeaves(t *Term, depth int) bool {
+	if depth > 6 {
+		return false
+	}
+	if t.op == "ite" {
+		return ctorLeaves(t.args[1], depth+1) && ctorLeaves(t.args[2], depth+1)
+	}
+	return isCtor(t)
+}
 
 func arith(op string, a, b *Term) *Term {
 	x, okx := a.intVal()
